@@ -240,6 +240,14 @@ class Fn:
             op = n['opcode']; ct = ctype(n)
             if op in ('++', '--'):
                 raise TranslationError('++/-- inside expression')
+            if op == '&':
+                # C12: address of a member listed in "address_of" -> opaque parameter addr_<member> (pointer identity only)
+                t = skip_wrappers(n['inner'][0])
+                if t.get('kind') == 'MemberExpr' and t.get('name') in self.ctx.cfg.get('address_of', []):
+                    pn = 'addr_' + t['name']
+                    if (pn, 'Z') not in self.extra_params:
+                        self.extra_params.append((pn, 'Z'))
+                    return pn
             a = self.e(n['inner'][0])
             if op == '!':
                 return f'(negb {a})'
@@ -430,6 +438,16 @@ class Fn:
                 callee = skip_wrappers(callee['inner'][0])
             if callee.get('kind') == 'DeclRefExpr' and self.functors.get(callee['referencedDecl']['name']) == 'value':
                 return callee['referencedDecl']['name']
+            # C12: overloaded `&member` (ObjectBuffer::operator&) of a member listed in "address_of" -> opaque parameter
+            try:
+                opn, _ = self.callee_name(n)
+            except TranslationError:
+                opn = None
+            if opn == 'operator&' and callee.get('kind') == 'MemberExpr' and callee.get('name') in self.ctx.cfg.get('address_of', []):
+                pn = 'addr_' + callee['name']
+                if (pn, 'Z') not in self.extra_params:
+                    self.extra_params.append((pn, 'Z'))
+                return pn
         raise TranslationError('operator call')
 
     def binop(self, op, ln, rn, ct):
@@ -557,6 +575,7 @@ class Fn:
                     for c in v.get('inner', []):
                         self.assigned(c, acc, declared)
                     declared.add(v['name'])
+                    self.ref_alias_base(v)   # C12: pre-register `T& r = field[idx];` so writes through r count as field writes
             return acc
         if (k == 'BinaryOperator' and n.get('opcode') == '=') or k == 'CompoundAssignOperator':
             acc.add(self.lhs_name(n['inner'][0]))
@@ -584,10 +603,32 @@ class Fn:
         if l['kind'] == 'ArraySubscriptExpr':
             return self.lv_base(l['inner'][0])
         if l['kind'] == 'DeclRefExpr':
+            if l['referencedDecl']['name'] in getattr(self, 'alias_pre', {}):   # C12: reference local aliasing a field element
+                return self.alias_pre[l['referencedDecl']['name']]
             return l['referencedDecl']['name']
         if l['kind'] == 'MemberExpr':
             return self.member(l)
         raise TranslationError('assignment target ' + l['kind'])
+
+    def ref_alias_base(self, v):
+        """C12: if VarDecl v is a non-const lvalue reference bound to an element of a configured array field
+        (`uint8_t& r = mArr[idx];`) return the field name (and remember it), else None."""
+        q = v.get('type', {}).get('qualType', '')
+        if not q.rstrip().endswith('&') or q.rstrip().endswith('&&') or re.search(r'\bconst\b', q):
+            return None
+        init = [x for x in v.get('inner', []) if isinstance(x, dict)]
+        if not init:
+            return None
+        iv = skip_wrappers(init[0])
+        if iv.get('kind') != 'ArraySubscriptExpr':
+            raise TranslationError('reference local %s is not bound to an array element of a field' % v.get('name'))
+        b = self.lv_base(iv['inner'][0])
+        if b not in self.ctx.fields:
+            raise TranslationError('reference local %s is bound to %s which is not a configured field' % (v.get('name'), b))
+        if not hasattr(self, 'alias_pre'):
+            self.alias_pre = {}
+        self.alias_pre[v['name']] = b
+        return b
 
     def assign_to(self, lhs, val, k):
         lhs = skip_wrappers(lhs)
@@ -601,6 +642,10 @@ class Fn:
             b = self.lv_base(lhs['inner'][0]); i = self.e(lhs['inner'][1])
             self.note_write(b)
             return f'let {b} := upd {b} {i} {val} in\n{k()}'
+        if lhs['kind'] == 'DeclRefExpr' and lhs['referencedDecl']['name'] in getattr(self, 'aliases', {}):
+            b, ix = self.aliases[lhs['referencedDecl']['name']]   # C12: write through a reference local = store to the element
+            self.note_write(b)
+            return f'let {b} := upd {b} {ix} {val} in\n{k()}'
         nm = self.lhs_name(lhs)
         self.note_write(nm)
         return f'let {nm} := {val} in\n{k()}'
@@ -641,6 +686,8 @@ class Fn:
         if kind == 'DeclStmt':
             return self.decl(s, rest)
         if kind == 'ReturnStmt':
+            if self.name in self.ctx.cfg.get('ignore_return', []):   # C12: returned iterator/pointer is not modelled
+                return jc['ret']('tt')
             if s.get('inner'):
                 return self.ret_stmt(s['inner'][0], jc)
             return jc['ret']('tt')
@@ -704,6 +751,12 @@ class Fn:
                 self.env[nm] = ct
                 return f'let {nm} := {"false" if ct[0]=="bool" else "0"} in\n{go(i+1)}'
             iv = skip_wrappers(init[0])
+            if nm not in self.opaque and self.ref_alias_base(v):   # C12: `uint8_t& r = field[idx];` (non-const reference to an element)
+                b = self.alias_pre[nm]; ixn = nm + '_idx'
+                if not hasattr(self, 'aliases'): self.aliases = {}
+                ixv = self.e(iv['inner'][1])
+                self.aliases[nm] = (b, ixn); self.env[nm] = ct
+                return f'let {ixn} := {ixv} in\n{go(i+1)}'
             # call to non-simple function as initialiser
             if iv['kind'] in ('CXXMemberCallExpr', 'CallExpr') and self.is_nonsimple_call(iv):
                 self.env[nm] = ct
@@ -803,10 +856,26 @@ class Fn:
                 return rest()
             if nm in self.ctx.cfg.get('skip_calls', []):
                 return rest()
+            if nm == 'fill_n' and k == 'CallExpr' and len(s0['inner']) == 4:
+                # C12: std::fill_n(field, n, v) on a configured array field
+                b = self.lv_base(s0['inner'][1])
+                if b not in self.ctx.fields:
+                    raise TranslationError('fill_n on %s which is not a configured field' % b)
+                cnt = self.e(s0['inner'][2]); val = self.e(s0['inner'][3])
+                self.note_write(b)
+                return (f'let {b} := (let fill_n_ := {cnt} in let fill_v_ := {val} in fun j_ => '
+                        f'if andb (Z.leb 0 j_) (Z.ltb j_ fill_n_) then fill_v_ else {b} j_) in\n{rest()}')
             fi = self.ctx.fninfo.get(nm)
             if fi is None:
                 raise TranslationError('call statement to untranslated ' + str(nm))
             if fi.nonsimple or fi.writes_fields:
+                if not fi.nonsimple and fi.ret_ct[0] == 'void':
+                    # C12: straight-line void function that writes fields: it returns the tuple of written fields
+                    wf = fi.out_fields()
+                    for f in wf:
+                        self.note_write(f)
+                    args = fi.field_args_for(self) + self.call_args(fi, s0['inner'][1:])
+                    return f'let {self.pat(wf)} := (' + ' '.join([fi.out] + args) + f') in\n{rest()}'
                 if not fi.nonsimple:
                     # simple function that writes fields cannot exist (simple => pure)
                     raise TranslationError('internal: pure function with writes')
@@ -815,6 +884,8 @@ class Fn:
         if k == 'CXXThrowExpr':
             self.nonsimple = True
             return 'Exn'
+        if k == 'CStyleCastExpr' and s0.get('castKind') == 'ToVoid':   # C12: `(void)x;`
+            return rest()
         raise TranslationError('statement kind ' + k)
 
     def functor_of(self, n):
@@ -1000,7 +1071,7 @@ class Fn:
         pf = self.ctx.cfg.get('prefix', {}).get(self.name)
         if pf:
             cut = [i for i, st in enumerate(body.get('inner', [])) if st.get('kind') == 'DeclStmt' and
-                   any(v.get('name') == pf['until'] for v in st.get('inner', []))]
+                   any(v.get('name') == pf['until'] for v in st.get('inner', []))] if pf.get('until') else [len(body.get('inner', []))]
             if not cut:
                 raise TranslationError('prefix: no declaration of %s in %s' % (pf['until'], self.name))
             ret_node = {'kind': 'GallinaReturn', 'text': self.tup(list(pf['return']))}
@@ -1236,7 +1307,10 @@ def translate_group(cfg, ast_text=None, repo='/repo'):
     out.extend(bodies)
     if sym:
         out.append(f'End {sec}.')
-    return '\n\n'.join(out) + '\n'
+    txt = '\n\n'.join(out) + '\n'
+    for a, b in cfg.get('rename', {}).items():   # C09: C++ identifiers that are Coq keywords ("mod" -> "mod_")
+        txt = re.sub(r'(?<![\w.])%s(?![\w.])' % re.escape(a), b, txt)
+    return txt
 
 def main():
     cfg = json.load(open(sys.argv[1]))
